@@ -15,6 +15,7 @@ RULE = (
     "non-trivial = >= 2 batches submitted by >= 2 different processes and >= 1 dependency edge; distinct by "
     "hash of (scenario, schedule)"
 )
+RULE += " Later additions (DESIGN.md 9): " + 'operator commands bound to the end of a batch and held back between two lock holds; up to 2 unusual-SLURM-state windows.'
 ASSUMPTIONS = C.WORLD_ASSUMPTIONS
 setup, teardown = C.setup, C.teardown
 
